@@ -121,6 +121,20 @@ reg('C13', 'grid', 'exploration',
     'TF rule-text equality asserted for meetings 1 Jan-30 Sep (as the property states); 29 Feb birthdays count on 28 Feb; XC cut-off = 31 Aug on or before the meeting.',
     'bounded exhaustive enumeration of date pairs against a rule-text reference model', 'DESIGN.md 2.5, 3/C13')
 
+reg('C14', 'grid', 'exploration',
+    'Every row of the 2015 and 2023 WMA tables and of the combined-events table x gender spellings x event letter case x every integer and half-integer '
+    'age from the first covered column to 20 years past the last x a performance grid around the open best, through the public wrappers and through grader '
+    'objects (fresh and reused, both call orders): factor equals an independent linear-interpolation lookup in the JSON, best equals the table, grade equals '
+    '(best/factor)/time or mark/(best/factor), strictly monotone, exactly 1.0 for the open best at factor 1, identical across spellings.',
+    'Oracle reads the JSON data files directly; combined-events table has no open-best column so only its factor is compared with the table.',
+    'bounded exhaustive enumeration of the input grid against an independent table-lookup reference model', 'DESIGN.md 2.5, 3/C14')
+reg('C15', 'grid', 'exploration',
+    'Bare whole-metre codes from 20 m to 400 km (thorough: every metre; quick: every metre to 30 km, windows around every tabulated distance and mile multiple, '
+    '1 km steps beyond) and road spellings 0.1K..400K / 0.1M..249M that are not themselves tabulated x gender x seven ages x both table years: factor inside '
+    'the hull of the bracketing tabulated rows, best inside theirs and strictly increasing along the metre axis, no failure beyond either end.',
+    'Distance of a spelling = get_distance; tabulated distances = km column; rows sharing a distance (track and road variants) all count as bracketing.',
+    'bounded exhaustive enumeration of the distance axis (betweenness / monotonicity relations)', 'DESIGN.md 2.5, 3/C15')
+
 ALL = ['C%02d' % i for i in range(1, 20)]
 PENDING_REASON = 'check not yet built in this session (planned, see DESIGN.md section 7); not claimed until it runs clean'
 
